@@ -3,7 +3,7 @@ import re
 from .. import facts, path, cfg as cfgm, tab
 from ..facts import AnalysisBroken, strip, sub, locstr
 
-TUS = ['src/uscxml/plugins/datamodel/lua/LuaDataModel.cpp', 'src/uscxml/interpreter/BasicContentExecutor.cpp']
+TUS = ['src/uscxml/plugins/datamodel/lua/LuaDataModel.cpp', 'src/uscxml/interpreter/BasicContentExecutor.cpp', 'src/uscxml/util/Convenience.cpp']
 LUA_TAGS = {'nil': ('isNil',), 'boolean': ('LUA_TBOOLEAN', 'isBoolean'), 'lightuserdata': ('isLightUserdata',), 'number': ('isNumber',), 'string': ('isString',),
             'table': ('isTable',), 'function': ('isFunction',), 'userdata': ('isUserdata',), 'thread': ('isThread',)}
 SYSTEM_VARS = {'_event', '_sessionid', '_name', '_ioprocessors', '_invokers'}
@@ -26,6 +26,143 @@ def assigned_type(then):
             if n:
                 return n
     return None
+
+
+def expr_evaluated_at_execution(rep, fb):
+    """R16.9: <content expr> is evaluated by the element that is executed, not by whoever receives the event"""
+    from .C08 import edge_dominates
+    rep.rule('R16.9', 'expressions are evaluated where they are executed: a member of the content executor that stores elementAsData(<content>) into an event evaluates the expr form itself (evalAsData under a test of the expr attribute or of the INTERPRETED tag); an unevaluated expression that travels in the event is evaluated by the receiving session, later and possibly in another data model instance')
+    n_sites = 0
+    for f in fb.funcs.values():
+        if f.rec != 'uscxml::BasicContentExecutor' or not f.d.get('cfg'):
+            continue
+        stores = []
+        for n in f.walk():
+            if n['k'] == 'CXXOperatorCallExpr' and n.get('op') == '=' and len(n.get('c', [])) > 2:
+                l = strip(n['c'][1])
+                if l is not None and l['k'] == 'MemberExpr' and l['ref'].get('name') == 'data' and 'Event' in (l['ref'].get('rec') or ''):
+                    if any(x.get('callee', {}).get('q', '').endswith('BasicContentExecutor::elementAsData') for x in sub(n['c'][2])):
+                        stores.append(n)
+            if n['k'] == 'DeclStmt':
+                for d in n.get('decls', []):
+                    if 'init' in d and 'Data' in (d.get('t') or '') and any(x.get('callee', {}).get('q', '').endswith('BasicContentExecutor::elementAsData') for x in sub(d['init'])):
+                        # Data d = elementAsData(..) later stored into an event
+                        if any(x['k'] == 'CXXOperatorCallExpr' and x.get('op') == '=' and strip(x['c'][1]).get('ref', {}).get('name') == 'data' and 'Event' in (strip(x['c'][1]).get('ref', {}).get('rec') or '') and
+                               any(y['k'] == 'DeclRefExpr' and y.get('ref', {}).get('lid') == d['lid'] for y in sub(x['c'][2])) for x in f.walk() if x['k'] == 'CXXOperatorCallExpr' and len(x.get('c', [])) > 2):
+                            stores.append(n)
+        if not stores:
+            continue
+        g = cfgm.CFG(f)
+        evals = [n for n in f.walk() if n.get('callee', {}).get('q', '').endswith('::evalAsData') and n['id'] in g.pos]
+        for st in stores:
+            n_sites += 1
+            ok = False
+            for e in evals:
+                tb = g.pos[e['id']][0]
+                for bid, blk in g.blocks.items():
+                    c = blk.get('cond')
+                    if c is None or c not in f.nodes or bid == tb:
+                        continue
+                    cn = f.nodes[c]
+                    mentions_expr = any(x['k'] == 'DeclRefExpr' and x.get('ref', {}).get('name') == 'kXMLCharExpr' for x in sub(cn)) or any(
+                        x['k'] == 'DeclRefExpr' and x.get('ref', {}).get('name') == 'INTERPRETED' for x in sub(cn))
+                    if mentions_expr and (edge_dominates(g, bid, True, tb) or edge_dominates(g, bid, False, tb)):
+                        # ... and the evaluation feeds an event's data in this function
+                        par = f.parent(e)
+                        while par is not None and par['k'] in facts.TRANSPARENT + ('CXXBindTemporaryExpr', 'MaterializeTemporaryExpr'):
+                            par = f.parent(par)
+                        if par is not None and par['k'] == 'CXXOperatorCallExpr' and par.get('op') == '=':
+                            l = strip(par['c'][1])
+                            if l is not None and l['k'] == 'MemberExpr' and l['ref'].get('name') == 'data':
+                                ok = True
+            rep.check(ok, 'R16.9', '%s|content expr' % f.q.split('::')[-1], locstr(st), '%s stores the <content> of the element into the event; the expr form %s' % (
+                f.q.split('::')[-1], 'is evaluated here first' if ok else 'is NOT evaluated here: the expression text travels in the event and is evaluated when the receiver converts the payload (with the values its variables have then, in its own data model)'))
+    rep.minimum('R16.9', n_sites, 3, 'members of the content executor that store <content> into an event')
+
+
+def numeric_predicates(rep, fb):
+    """R16.7: what the marshalling treats as "numeric" / "integer" is decided by a whole-string syntax test"""
+    rep.rule('R16.7', 'numeric predicates test the syntax of the whole string: isNumeric / isInteger (on which getDataAsLua and the key ordering rely) are not character-class tests - a sign is accepted at the first position only, at most one decimal point, at least one digit ("10-3", "2024-01-05", "" are not numbers)')
+    found = 0
+    for name in ('uscxml::isNumeric', 'uscxml::isInteger'):
+        f = fb.fn(name, required=False)
+        if f is None:
+            continue
+        found += 1
+        cls = []
+        for n in f.walk():
+            q = n.get('callee', {}).get('q', '').split('::')[-1]
+            if q in ('find_first_not_of', 'strspn', 'find_last_not_of'):
+                cls.append(n)
+        # the character set of such a test: literals reachable from its argument (through locals)
+        defs = path.local_defs(f)
+        bad = None
+        for n in cls:
+            parts = list(n.get('c', [])[1:])
+            seen = set()
+            for _ in range(3):
+                for pn in list(parts):
+                    for x in sub(pn):
+                        lid = x.get('ref', {}).get('lid') if x['k'] == 'DeclRefExpr' else None
+                        if lid is not None and lid not in seen and lid in defs:
+                            seen.add(lid)
+                            parts += [i for i in defs[lid] if i is not None]
+            lits = ''.join(x.get('str', '') for pn in parts for x in sub(pn) if x['k'] == 'StringLiteral')
+            if '-' in lits or '.' in lits:
+                bad = (n, lits)
+        rep.check(bad is None, 'R16.7', name.split('::')[-1], locstr(bad[0]) if bad else f.where(), '%s %s' % (name.split('::')[-1],
+                  'constrains the position of sign and decimal point' if bad is None else
+                  'accepts every string over the character set "%s" (sign / point at any position, any number of times, also the empty string): "10-3" and "2024-01-05" count as numbers and are converted with strTo' % bad[1][:24]))
+    rep.minimum('R16.7', found, 2, 'numeric predicates (isNumeric, isInteger)')
+
+
+def protected_everywhere(rep, fb):
+    """R16.8: every chart-controlled name that becomes a write into the Lua globals passes the protected-name test"""
+    rep.rule('R16.8', 'every entry that writes a chart-controlled location tests it against the system variables: assign() (and init() through it) on the NORMALISED location (trimmed, first path component), setForeach() for its item and index names')
+    asg = fb.fn('uscxml::LuaDataModel::assign', params=['string', 'Data', 'map'])
+    # 1. normalisation before the comparison
+    loc = [p_['lid'] for p_ in asg.d.get('params', []) if p_['name'] == 'location']
+    cmps = [n for n in asg.walk() if n['k'] == 'CXXMemberCallExpr' and n.get('callee', {}).get('q', '').endswith('::compare') and any(
+        x['k'] == 'StringLiteral' and x.get('str') in SYSTEM_VARS for x in sub(n))] + [n for n in asg.walk() if n['k'] == 'CXXOperatorCallExpr' and n.get('op') == '==' and any(
+        x['k'] == 'StringLiteral' and x.get('str') in SYSTEM_VARS for x in sub(n))]
+    if not cmps:
+        raise AnalysisBroken('LuaDataModel::assign: protected-name comparisons not found')
+    raw = [n for n in cmps if any(x['k'] == 'DeclRefExpr' and x.get('ref', {}).get('lid') in loc for x in sub(n))]
+    rep.check(not raw, 'R16.8', 'assign|normalised location', locstr(cmps[0]), 'the protected-name tests compare %s' % (
+        'a normalised copy of the location' if not raw else 'the RAW location string with the exact names: " _name", "_event.name" or "_G._name" are other spellings of the same variable and pass'))
+    # 2. foreach
+    sf = fb.fn('uscxml::LuaDataModel::setForeach', required=False)
+    if sf is None:
+        raise AnalysisBroken('LuaDataModel::setForeach not found')
+    tests = [n for n in sf.walk() if any(x['k'] == 'StringLiteral' and x.get('str') in SYSTEM_VARS for x in sub(n)) and n['k'] in ('CXXMemberCallExpr', 'CXXOperatorCallExpr')] or [
+        n for n in sf.walk() if n.get('callee', {}).get('q', '').endswith('LuaDataModel::assign')]
+    rep.check(bool(tests), 'R16.8', 'setForeach|item and index', sf.where(), 'setForeach writes the globals named by item / index %s' % (
+        'after the protected-name test' if tests else 'WITHOUT the protected-name test: <foreach item="_sessionid"> overwrites the system variable'))
+
+
+def kind_before_size(rep, fb, d2l):
+    """R16.10: getDataAsLua decides the kind of a value before its size"""
+    rep.rule('R16.10', 'the kind of a value is decided before its size: getDataAsLua returns a Lua string for every VERBATIM atom, also the empty one (a test of atom.size() that comes first turns "" into nil, and nil appended to a table shifts the following elements)')
+    g = cfgm.CFG(d2l)
+    verb = [n for n in d2l.walk() if n['k'] in ('BinaryOperator', 'CXXOperatorCallExpr') and n.get('op') == '=' and any(
+        x['k'] == 'MemberExpr' and x['ref'].get('name') == 'atom' for x in sub(n['c'][-1]))]
+    if not verb:
+        raise AnalysisBroken('getDataAsLua: the assignment of the verbatim atom was not found')
+    from .C08 import edge_dominates
+    st = verb[0]
+    tb = g.pos[st['id']][0] if st['id'] in g.pos else None
+    sized = None
+    for bid, blk in g.blocks.items():
+        c = blk.get('cond')
+        if c is None or c not in d2l.nodes or tb is None or bid == tb:
+            continue
+        cn = strip(d2l.nodes[c])
+        if any(x['k'] == 'MemberExpr' and x['ref'].get('name') == 'atom' for x in sub(cn)) and any(x.get('callee', {}).get('q', '').split('::')[-1] in ('size', 'length', 'empty') for x in sub(cn)):
+            only_size = not any(x['k'] == 'DeclRefExpr' and x.get('ref', {}).get('name') == 'VERBATIM' for x in sub(cn))
+            if only_size and (edge_dominates(g, bid, True, tb) or edge_dominates(g, bid, False, tb)):
+                sized = cn
+    rep.check(sized is None, 'R16.10', 'getDataAsLua|verbatim atom', locstr(st), 'a VERBATIM atom becomes a Lua string %s' % (
+        'whatever its length' if sized is None else 'only if `%s`: the empty string falls through to nil' % ' '.join(fb.text(sized).split())[:50]))
 
 
 def run(rep, tier):
@@ -281,3 +418,10 @@ def run(rep, tier):
     ok = (not key_is_string) or has_cmp or not numeric_parse
     rep.check(ok, 'R16.5', 'getLuaAsData|array order', locstr(arr_loop), 'array elements are emitted by iterating %s; keys are parsed as numbers: %s; %s' % (
         rng_t[:90], numeric_parse, 'ordered numerically' if ok else 'ordered LEXICOGRAPHICALLY ("10" < "2"): arrays with ten or more elements come back scrambled'))
+
+    # ---- R16.7 .. R16.10
+    numeric_predicates(rep, fb)
+    protected_everywhere(rep, fb)
+    expr_evaluated_at_execution(rep, fb)
+    kind_before_size(rep, fb, d2l)
+
